@@ -218,6 +218,8 @@ func init() {
 	}, blockAssumptions...), HSpec{Pkg: minterPkg, Func: "VerifHarness_C28_RewardWindow", Tier: "quick",
 		Bounds: "one BeginBlock per (height, hour, gap) choice; emission unbounded"})
 	add("C07", blockAssumptions, HSpec{Pkg: minterPkg, Func: "VerifHarness_C28_RewardWindow", Tier: "quick", Bounds: "one BeginBlock per (height, hour, gap) choice; no panic"})
+	add("C28", blockAssumptions, HSpec{Pkg: minterPkg, Func: "VerifHarness_C28_Recovery", Tier: "quick",
+		Bounds: "two reward updates one stake period apart with an idle BIP/USDT pool (reserves in a power-of-two ratio so that the price is exact in 100-bit floats), the validators' share switched off in between"})
 
 	// ---------------------------------------------------------- C09 app DB
 	add("C09", append([]string{
